@@ -300,6 +300,12 @@ func readTV(rd data.Reader, kind string, ptr bool) (tv, error) {
 	case "by":
 		var x []byte
 		if ptr {
+			// the destination is not always fresh: one variable reused in a decode loop still holds
+			// the previous (possibly longer) value
+			c10Stale++
+			if n := []int{0, 3, 9, 300, 70000}[c10Stale%5]; n > 0 {
+				x = bytes.Repeat([]byte{0xEE}, n)
+			}
 			err = rd.ReadBytes(&x)
 		} else {
 			x, err = rd.Bytes()
@@ -312,6 +318,9 @@ func readTV(rd data.Reader, kind string, ptr bool) (tv, error) {
 	case "str":
 		var x string
 		if ptr {
+			if c10Stale++; c10Stale%2 == 0 {
+				x = "stale value of an earlier round, longer than most"
+			}
 			err = rd.ReadString(&x)
 		} else {
 			x, err = rd.StringVal()
@@ -331,6 +340,9 @@ func readTV(rd data.Reader, kind string, ptr bool) (tv, error) {
 	}
 	return v, err
 }
+
+// c10Stale makes the destinations of the pointer-style readers non-fresh in a fixed rotation.
+var c10Stale int
 
 func errClass(err error) string {
 	switch {
@@ -423,9 +435,10 @@ func runC10(c *Ctx) {
 			c.Count("kind:" + vs[j].kind)
 		}
 		var ch data.Chunk
+		var left []byte
 		// the in-memory writer on storage that was used before (a Chunk is reused after Reset and works
 		// as a queue): what an earlier use left in the backing array must not show in the encoding
-		switch r.Intn(5) {
+		switch r.Intn(6) {
 		case 0:
 			ch.Write(bytes.Repeat([]byte{0xFF}, 64+r.Intn(5000)))
 			ch.Reset()
@@ -441,6 +454,20 @@ func runC10(c *Ctx) {
 				k += n
 			}
 			c.Count("chunk:queue-reuse")
+			if r.Bool() { // an explicit Grow on the drained queue (c2/mux.go, task/io.go do this before writing a result)
+				ch.Grow(1 + r.Intn(6000))
+				c.Count("chunk:queue-reuse+grow")
+			}
+		case 2:
+			// a queue that still holds unread bytes, then an explicit Grow that has to compact or
+			// reallocate: the unread bytes stay in front, nothing stale appears between them and the
+			// values written next
+			g := r.Bytes(64 + r.Intn(3000))
+			ch.Write(g)
+			k, _ := ch.Read(make([]byte, 1+r.Intn(len(g)-1)))
+			left = append([]byte(nil), g[k:]...)
+			ch.Grow([]int{1, 16, len(g), 2 * len(g), 6000}[r.Intn(5)])
+			c.Count("chunk:unread+grow")
 		}
 		for _, v := range vs {
 			if err := writeTV(&ch, v); err != nil {
@@ -449,6 +476,13 @@ func runC10(c *Ctx) {
 			}
 		}
 		e1 := append([]byte(nil), ch.Payload()...)
+		if left != nil {
+			if len(e1) < len(left) || !bytes.Equal(e1[:len(left)], left) {
+				c.Fail("write", "chunk-grow-lost-unread", "after Read, Grow and typed writes the unread bytes are not in front of the encoding any more", toks)
+				return
+			}
+			e1 = e1[len(left):]
+		}
 		var mw multiWrites
 		sw := data.NewWriter(&mw)
 		for _, v := range vs {
